@@ -37,7 +37,7 @@ PROPS = {
     "C02": P(
         technique="Lean 4 invariant proof over all write programs (induction over the operation list) + strict RFC decoder spec + differential correspondence",
         level_text="Proof: for every program over the write API, every buffer size, role, pool and compression setting and every environment answer, the wire of a fault-free connection is a concatenation of frames that the strict RFC 6455 decoder (written from the RFC in WS/Spec/Frame.lean; non-minimal lengths are undecodable) accepts, masked iff client; frame-record level well-formedness (RSV bits, fragmentation grammar, control frames) and payload content are WS.Lemmas.WireWF / Content; a compressed message is exactly one RSV1 message whose payload is the deflate stream minus its tail, however flate chunks its output; every client frame takes the next draw of the key source (key_per_frame) and servers never mask. Tie: exact wire bytes of the real package vs the model on random programs incl. prepared messages, compression toggles, pools; independent Go RFC decoder + inflater on the real wire.",
-        level_note="crypto/rand quality is not modelled (site inventory pins newMaskKey/maskRand uses); flate output is an environment answer validated against the trunc spec. Finding F8 (prepared data message while a writer is open) excluded from the grammar theorem and recorded.",
+        level_note="crypto/rand quality is not modelled (site inventory pins newMaskKey/maskRand uses); flate output is an environment answer validated against the trunc spec. Finding F8 (a prepared data message sent while a writer was open landed between its fragments) was repaired (fix: aca3807): the writer is closed first, as NextWriter does; stream wf8 is the regression sentinel.",
         lean=["WS.Props.C02"],
         streams=[("w", 800, 16000), ("wclose", 300, 6000), ("wf8", 150, 2000), ("sched", 120, 2000)],
         assumptions=[ASSUME_FLATE],
